@@ -1628,7 +1628,9 @@ class BaseLoss(object):
         dealing with estimating the initial value as well
         """
         x0 = ode_utils.check_array_type(x0)
-        self._x0 = np.copy(x0)
+        # always floating, so that a fractional initial value assigned to one
+        # of the target states later on is not truncated to an integer
+        self._x0 = np.array(x0, dtype=np.float64)
 
     def _setLossType(self):
         """
